@@ -1062,10 +1062,14 @@ def _classify_b(text, cursor, kind, info):
             character from behind the continuation
     C18-F9  cursor inside the closing triple quote of a closed string (after its 1st or 2nd character): reported as
             if it stood inside the string value
+    C18-F23 the word `async` directly followed by a character the tokenizer reports as an error token (backquote, NUL,
+            control character ...): the two tokens come out in swapped order
+    C18-F22 f-string with a doubled brace: the tokenizer hands out the un-doubled text, prefix/suffix lose a character
+    C18-F21 still-open single-line string ending in a lone backslash: the backslash is reported as closing_quote
     C18-F19 cursor inside a sub-expression opener (`$(` `![` `@(` ...) that directly follows a continuation glued to a
             word: the cursor offset is taken on the unprocessed text, the prefix swallows the rest of the opener
     """
-    if kind == "exception:AttributeError@lexer.py:handle_error_linecont" and "\\\n" in text:
+    if kind == "exception:AttributeError@lexer.py:handle_error_linecont" and "\\" in text:
         return "C18-F5"
     if kind in ("prefix", "suffix") and _lexmsg_shape(text) and _LEXMSG in (info.get("prefix", "") + info.get("suffix", "")):
         return "C18-F6"
@@ -1076,6 +1080,12 @@ def _classify_b(text, cursor, kind, info):
     if kind in ("prefix", "suffix") and _inside_closing_triple(text, cursor) and len(info.get("closing_quote", "")) == 3 \
             and not info.get("after"):
         return "C18-F9"
+    if kind == "quote-fields" and info.get("closing_quote") == "\\":
+        return "C18-F21"
+    if kind in ("prefix", "suffix") and _FSTR_RE.search(text) and ("{{" in text or "}}" in text):
+        return "C18-F22"
+    if kind in ("prefix", "suffix") and re.search(r"async[^\w \t\n]", text):
+        return "C18-F23"
     if kind in ("prefix", "suffix") and "\\\n" in text[:cursor] and text[cursor - 1:cursor] in ("@", "$", "!") \
             and text[cursor:cursor + 1] in ("(", "[", "$", "!"):
         return "C18-F19"
@@ -1357,14 +1367,13 @@ def main(run):
     _setup(_state_scratch)
     common.replay_tier(run, _replay_case)
     os.chdir(common.VERIF)
-    na = 6
-    nb = 6
-    per_a = run.n(1000, 14000)
-    per_b = run.n(30000, 800000)
+    quick = run.tier != "thorough"
+    naf, na, nb = (4, 6, 6) if quick else (2, 7, 7)
+    per_a = run.n(1000, 14000)           # cases per worker (~25 ms each)
+    per_b = run.n(30000, 600000)         # (text, cursor) pairs per worker (~0.7 ms each)
     args = []
-    naf = 4
     for w in range(naf):
-        args.append(("AF", w, naf, os.path.join(run.scratch, "af%d" % w), run.tier == "thorough"))
+        args.append(("AF", w, naf, os.path.join(run.scratch, "af%d" % w), not quick))
     for w in range(na):
         args.append(("A", common.worker_seed(run.seed, w), per_a, os.path.join(run.scratch, "a%d" % w)))
     for w in range(nb):
@@ -1376,7 +1385,7 @@ def main(run):
         raise common.HarnessError("generator incomplete: the path completer offered candidates in only %d of %d Part A cases"
                                   % (offered, total_a))
     if run.tier == "thorough":
-        fails, runs, note = run_atheris(run, 8, 600)
+        fails, runs, note = run_atheris(run, min(8, int(os.environ.get("VERIF_PROCS", "16"))), int(os.environ.get("C18_ATHERIS_SECONDS", "540")))
         run.stats.notes.append(note)
         run.extra["atheris_executions"] = runs
         run.stats.evaluations += runs
@@ -1385,15 +1394,19 @@ def main(run):
     else:
         run.stats.notes.append("atheris campaign runs in the thorough tier only")
     run.assumptions += [
-        "file names are valid UTF-8 (no undecodable bytes), 1-40 characters, not `.` / `..`",
+        "file names are valid UTF-8 (no undecodable bytes), 1-40 characters, not `.` / `..`; sub-directory names do not start with ~",
         "the bash and man completion bridges are not registered ($PATH holds no bash): the candidates examined are the path completer's, "
         "identified by calling complete_path on the same context",
-        "a bare (unquoted) typed prefix contains no blank, quote, backslash, `$`, backquote, `! ; & | < > ( ) { } ,` or control character and "
-        "does not start with `#`; a prefix typed inside a non-raw string contains no `$`; `~/...` is typed only inside raw strings",
-        "a path candidate must name an existing entry (it was produced from a directory listing); completeness of the candidate list is "
-        "required only for the generated entry, and only when the path completer offers anything",
-        "Part B: cursor positions 0..len(text); a cursor between the backslash and the newline of a continuation may be attributed to "
-        "either side",
+        "a bare (unquoted) typed prefix contains no blank, quote, backslash, `$`, backquote, `! # ; & | < > ( ) { } ,` or control character "
+        "(xonsh does not read such text as a literal word); a prefix typed inside a non-raw string contains no `$`; `~/...` is typed only "
+        "inside raw strings; p-strings are not used for names with `$` or a leading `~` (a p-string always expands them)",
+        "every path candidate must run as exactly one argument naming an existing entry; the candidate list need not be complete - the "
+        "generated entry must be delivered only if it is delivered when its siblings are absent (collapse onto a sibling's text)",
+        "a candidate may spell the entry differently from what was typed (r'~' for ./~; a trailing / for directories; pathlib's spelling for p-strings)",
+        "dot files are not expected for an empty name prefix ($DOTGLOB)",
+        "Part B: cursor positions 0..len(text); the text does not start with a byte-order mark; prefix/suffix are compared with the text as it "
+        "stands or with backslash-newline removed on either side; a cursor between the backslash and the newline of a continuation may be "
+        "attributed to either side; hang bound 3 CPU-seconds per parse, re-confirmed with 6",
     ]
 
 
